@@ -177,6 +177,35 @@ def run(rep: common.Report, tier: str, seed: int, replay=None) -> int:
         def noname_film():
             tdgl.Device("d", layer=layer, film=tdgl.Polygon(points=box(4, 4, points=40)))
 
+        def probe_in_hole():
+            tdgl.Device("d", layer=layer, film=film, holes=[tdgl.Polygon("h", points=circle(0.5, center=(1, 1)))], probe_points=[(0, 0), (1, 1)])
+
+        def points_3d():
+            tdgl.Polygon("p", points=np.array([[0, 0, 0], [1, 0, 0], [1, 1, 0], [0, 1, 0]], dtype=float))
+
+        def two_points():
+            tdgl.Polygon("p", points=np.array([[0.0, 0.0], [1.0, 1.0]]))
+
+        def disjoint_union():
+            tdgl.Polygon("a", points=box(1, 1)).union(tdgl.Polygon("b", points=box(1, 1, center=(5, 5))))
+
+        def empty_intersection():
+            tdgl.Polygon("a", points=box(1, 1)).intersection(tdgl.Polygon("b", points=box(1, 1, center=(5, 5))))
+
+        def split_difference():
+            tdgl.Polygon("a", points=box(4, 1)).difference(tdgl.Polygon("b", points=box(1, 3)))
+
+        def invalid_film():
+            bad = tdgl.Polygon("film", points=box(4, 4, points=40))
+            bad._points = np.array([[0, 0], [1, 1], [1, 0], [0, 1], [0, 0]], dtype=float)      # corrupted after construction
+            tdgl.Device("d", layer=layer, film=bad)
+
+        for nm, f in (("probe point inside a hole", probe_in_hole), ("polygon points of shape (n, 3)", points_3d),
+                      ("polygon with two points", two_points), ("union of disjoint polygons", disjoint_union),
+                      ("empty intersection", empty_intersection), ("difference that splits the polygon", split_difference),
+                      ("device built on an invalid film polygon", invalid_film)):
+            expect_rejected(rep, "invalid polygon / device definition", nm, lambda out, f=f: f(), td, f"a{n}"); n += 1
+
         for nm, f in (("self-intersecting polygon", bowtie), ("polygon with interior ring", ring), ("duplicate terminal names", dup_terms),
                       ("terminal without a name", noname_term), ("duplicate hole names", dup_holes), ("probe points outside the film", probes_outside),
                       ("probe points of the wrong shape", probes_shape), ("film without a name", noname_film)):
